@@ -24,7 +24,7 @@ func tagSizePre() []Fact {
 func asmContracts(arch string) map[string]*xContract {
 	c := map[string]*xContract{}
 	blk := func(n int64) *xContract {
-		return &xContract{size: map[string]*Lin{"rk": linConst(128), "dst": linConst(n), "src": linConst(n)}}
+		return &xContract{size: map[string]*Lin{"rk": linConst(128), "dst": linConst(n), "src": linConst(n)}, overlap: map[string][]string{"src": {"dst"}}}
 	}
 	c["expandKeyAsm"] = &xContract{size: map[string]*Lin{"key": linConst(16), "enc": linConst(128), "dec": linConst(128)}}
 	c["cryptoBlockAsm"], c["cryptoBlockAsmX2"], c["cryptoBlockAsmX4"], c["cryptoBlockAsmX8"] = blk(16), blk(32), blk(64), blk(128)
@@ -46,17 +46,19 @@ func asmContracts(arch string) map[string]*xContract {
 			size:       map[string]*Lin{"roundKeys": linConst(128), "dst": pl.Add(L("tagSize")), "nonce": nl, "plaintext": pl, "additionalData": al, "temp": linConst(32)},
 			pre:        tagSizePre(),
 			consumeSet: map[string][]*Lin{"nonce": {nl}, "plaintext": {pl}, "additionalData": {al}, "dst": {pl, pl.Add(L("tagSize"))}},
+			overlap:    map[string][]string{"plaintext": {"dst"}},
 		}
 		c["openAsm"] = &xContract{
 			size:       map[string]*Lin{"roundKeys": linConst(128), "dst": cl.Sub(L("tagSize")), "nonce": nl, "ciphertext": cl, "additionalData": al, "temp": linConst(32)},
 			pre:        append(tagSizePre(), Fact{E: cl.Sub(L("tagSize"))}),
 			consumeSet: map[string][]*Lin{"nonce": {nl}, "ciphertext": {cl.Sub(L("tagSize")), cl}, "additionalData": {al}, "dst": {cl.Sub(L("tagSize"))}},
 			mayBeNil:   map[string]bool{"dst": true},
+			overlap:    map[string][]string{"ciphertext": {"dst"}},
 		}
 	} else {
-		c["cryptoBlockAsmX16Internal"] = &xContract{size: map[string]*Lin{"rk": linConst(128), "dst": linConst(256), "src": linConst(256), "tmp": linConst(256)}}
+		c["cryptoBlockAsmX16Internal"] = &xContract{size: map[string]*Lin{"rk": linConst(128), "dst": linConst(256), "src": linConst(256), "tmp": linConst(256)}, overlap: map[string][]string{"src": {"dst", "tmp"}}}
 		for _, n := range []int64{256, 128, 64, 32, 16} {
-			c[fmt.Sprintf("xor%d", n)] = &xContract{size: map[string]*Lin{"dst": linConst(n), "src1": linConst(n), "src2": linConst(n)}}
+			c[fmt.Sprintf("xor%d", n)] = &xContract{size: map[string]*Lin{"dst": linConst(n), "src1": linConst(n), "src2": linConst(n)}, overlap: map[string][]string{"src2": {"dst"}, "src1": {"dst"}}}
 		}
 	}
 	return c
